@@ -178,6 +178,7 @@ def image_of(reader):
 
 
 _real_path = None
+_run_mtime = None
 
 
 def open_variant(b, measure=False, real=False):
@@ -459,8 +460,14 @@ def run(case):
             if t2 > 0.6 and t2 > 3.2 * max(t1, 0.02):
                 viol('time-superlinear', f'tail {fill!r}*n', f't(2n) <= 3.2 t(n) (n={n1} bytes took {t1:.2f}s)',
                      f't(2n) = {t2:.2f}s')
-    # ---- 5. run() agrees with the reader on a sample
-    for b, nm in ((F, 'intact'), (F[:max(0, n - 1)], 'prefix-1'), (F[:pay_off], 'no-payload')):
+    # ---- 5. run() agrees with the reader on a sample. the variants REPLACE the intact file in place: same path, and
+    #         for the same-size ones the same size and modification time (a torn rewrite, a flipped bit on the disk)
+    bad_magic = bytes([F[0] ^ 0x40]) + F[1:]
+    flipped_len = bytearray(F)
+    if h['nseg']:
+        struct.pack_into('<Q', flipped_len, h['table_off'] + 24, struct.unpack_from('<Q', F, h['table_off'] + 24)[0] | (1 << 40))
+    for b, nm in ((F, 'intact'), (bad_magic, 'in-place-bad-magic'), (bytes(flipped_len), 'in-place-data-length'),
+                  (F[:max(0, n - 1)], 'prefix-1'), (F[:pay_off], 'no-payload'), (F, 'intact-again')):
         evals += 1
         r = _run_agrees(b)
         if r is not None:
@@ -526,14 +533,20 @@ def _run_agrees(b):
     import os
     from flipjump.interpreter import fjm_run
     from flipjump.utils.exceptions import FlipJumpReadFjmException, FlipJumpException
-    verdict, detail, _, _ = open_variant(b)
-    FS.files['/simfs/v.fjm'] = bytes(b)
+    verdict, detail, _, _ = open_variant(b, real=True)
+    # same path as the previous variant; keep the modification time of the first one (an in-place damage does not
+    # announce itself through the file's metadata)
+    global _run_mtime
+    st0 = os.stat(_real_path)
+    if _run_mtime is None:
+        _run_mtime = (st0.st_atime_ns, st0.st_mtime_ns)
+    os.utime(_real_path, ns=_run_mtime)
     os.environ['FLIPJUMP_NO_NATIVE'] = '1'     # python fast loop: the case watchdog can always stop it
     dev = _StopDevice()
     try:
         try:
             with kernel.short_timer(0.2):
-                st = fjm_run.run('/simfs/v.fjm', io_device=dev)
+                st = fjm_run.run(_real_path, io_device=dev)
             out = 'ran'
         except kernel.ShortStop:
             out = 'ran'
